@@ -19,22 +19,7 @@
   (+-2048 / 2048), stroke widths up to 128 inside `Sec.width` (1024); `contains` / `points()` are
   proved on `Sec.circle` (+-4096 / 4097).
 -/
-import EG.Lemmas.CheckedSector
-import EG.Lemmas.FixedTrig
-namespace EG.DS
-open EG.Chk
-theorem circle_base {c : Circle} (h : circle c) : Sec.base c := by
-  obtain ⟨⟨⟨_, _⟩, ⟨_, _⟩⟩, hd⟩ := h
-  unfold size at hd
-  unfold Sec.base; omega
-theorem xcircle_sec {c : Circle} (h : xcircle c) : Sec.circle c := by
-  obtain ⟨⟨⟨_, _⟩, ⟨_, _⟩⟩, hd⟩ := h
-  unfold xsize at hd
-  unfold Sec.circle; omega
-theorem width_sec {st : Style} (h : width st.width) : Sec.width st := by
-  unfold width at h; unfold Sec.width; omega
-end EG.DS
-
+import EG.Lemmas.CheckedDSMore
 namespace EG.C08
 open EG EG.Chk
 
